@@ -208,6 +208,9 @@ fn read_workload(cf: &mut Cf) -> u64 {
     let _ = cf.read_storage("/nope");
     for e in entries.iter() {
         let p = e.path().to_path_buf();
+        // every accessor of the entry (names such as ".." or the empty name are legal in a file and only need to be reported)
+        let _ = (e.name().len(), e.is_stream(), e.is_storage(), e.is_root(), e.len(), e.is_empty(), *e.clsid(), e.state_bits(), e.created(), e.modified());
+        let _ = format!("{:?}", e);
         let _ = cf.entry(&p);
         let _ = cf.exists(&p);
         let _ = cf.is_stream(&p);
